@@ -79,6 +79,12 @@ func (h *Engine) Configure(serverConfig core.ServerConfig) error {
 	if h.config.Internal.Address == h.config.Public.Address {
 		return fmt.Errorf("http.internal.address and http.public.address must differ (both are '%s')", h.config.Public.Address)
 	}
+	// Addresses that are written differently can still denote the same socket (e.g. ':8080' and '0.0.0.0:8080', or
+	// 'localhost:8080' and '127.0.0.1:8080'). Only one of the 2 HTTP servers is then able to bind it, and if that is the
+	// internal one the internal endpoints are served on the address that was configured as the public one.
+	if sameListenAddress(h.config.Internal.Address, h.config.Public.Address) {
+		return fmt.Errorf("http.internal.address ('%s') and http.public.address ('%s') must not listen on the same address", h.config.Internal.Address, h.config.Public.Address)
+	}
 
 	h.server = NewMultiEcho()
 	// Public endpoints
@@ -100,6 +106,28 @@ func (h *Engine) Configure(serverConfig core.ServerConfig) error {
 	// so requests that fail authentication must not consume from it (and must be answered 401, not 429).
 	h.applyRateLimiterMiddleware(h.server, serverConfig)
 	return nil
+}
+
+// sameListenAddress returns true if listening on both addresses would claim the same TCP port on an overlapping IP address:
+// the ports are equal, and the IP addresses are equal or one of them is the wildcard address.
+// Addresses that can't be resolved are not reported here, starting the HTTP server will fail on them.
+func sameListenAddress(address1 string, address2 string) bool {
+	tcpAddress1, err := net.ResolveTCPAddr("tcp", address1)
+	if err != nil {
+		return false
+	}
+	tcpAddress2, err := net.ResolveTCPAddr("tcp", address2)
+	if err != nil {
+		return false
+	}
+	if tcpAddress1.Port != tcpAddress2.Port || tcpAddress1.Port == 0 {
+		// port 0 lets the OS pick a free port for each listener
+		return false
+	}
+	isWildcard := func(ip net.IP) bool {
+		return len(ip) == 0 || ip.IsUnspecified()
+	}
+	return isWildcard(tcpAddress1.IP) || isWildcard(tcpAddress2.IP) || tcpAddress1.IP.Equal(tcpAddress2.IP)
 }
 
 func (h *Engine) configureClient(serverConfig core.ServerConfig) {
